@@ -4,6 +4,7 @@
 use crate::driver::{CaseOutcome, CheckCtx, Found, PropMeta, Tier, Violation};
 use crate::hist::monitor::Facts;
 use crate::hist::ops::{case_strategy, HistCase, Profile};
+use proptest::strategy::Strategy;
 use crate::hist::{base_info, run_for};
 
 pub struct HistProp {
@@ -17,6 +18,8 @@ pub struct HistProp {
     pub workers: usize,
     /// a fixed, constructed list of cases run completely in both tiers before the random search (sub-check "table")
     pub table: Option<fn() -> Vec<HistCase>>,
+    /// an additional sub-check of its own shape, run after the profile searches
+    pub extra: Option<fn(&CheckCtx, &'static HistProp) -> Option<Found>>,
 }
 
 pub fn run_case_for(hp: &HistProp, case: &HistCase) -> CaseOutcome {
@@ -72,6 +75,13 @@ pub fn hist_check(ctx: &CheckCtx, hp: &HistProp) -> Option<Found> {
         };
         if let Some(f) = ctx.search_with(name, || case_strategy(profile), cases, hp.workers, None, |c| run_case_for(hp, c)) {
             return Some(f);
+        }
+    }
+    if let Some(extra) = hp.extra {
+        if let Some(hp_static) = by_id(hp.id) {
+            if let Some(f) = extra(ctx, hp_static) {
+                return Some(f);
+            }
         }
     }
     if ctx.tier == Tier::Thorough {
@@ -162,6 +172,7 @@ pub static C01: HistProp = HistProp {
     epoll_each_step: false,
     workers: 8,
     table: None,
+    extra: None,
 };
 
 // ------------------------------------------------------------------------------------------ C02
@@ -208,6 +219,7 @@ pub static C02: HistProp = HistProp {
     epoll_each_step: false,
     workers: 8,
     table: None,
+    extra: None,
 };
 
 // ------------------------------------------------------------------------------------------ C05
@@ -255,6 +267,7 @@ pub static C05: HistProp = HistProp {
     epoll_each_step: false,
     workers: 8,
     table: None,
+    extra: None,
 };
 
 // ------------------------------------------------------------------------------------------ C06
@@ -295,6 +308,7 @@ pub static C06: HistProp = HistProp {
     epoll_each_step: false,
     workers: 8,
     table: None,
+    extra: None,
 };
 
 // ------------------------------------------------------------------------------------------ C07
@@ -334,6 +348,7 @@ pub static C07: HistProp = HistProp {
     epoll_each_step: false,
     workers: 8,
     table: None,
+    extra: None,
 };
 
 // ------------------------------------------------------------------------------------------ C08
@@ -494,6 +509,7 @@ pub static C08: HistProp = HistProp {
     epoll_each_step: false,
     workers: 8,
     table: Some(c08_table),
+    extra: None,
 };
 
 // ------------------------------------------------------------------------------------------ C09
@@ -537,6 +553,7 @@ pub static C09: HistProp = HistProp {
     epoll_each_step: false,
     workers: 8,
     table: None,
+    extra: None,
 };
 
 // ------------------------------------------------------------------------------------------ C13
@@ -577,6 +594,7 @@ pub static C13: HistProp = HistProp {
     epoll_each_step: false,
     workers: 8,
     table: None,
+    extra: None,
 };
 
 // ------------------------------------------------------------------------------------------ C14
@@ -622,6 +640,7 @@ pub static C14: HistProp = HistProp {
     epoll_each_step: false,
     workers: 8,
     table: None,
+    extra: None,
 };
 
 // ------------------------------------------------------------------------------------------ C15
@@ -629,7 +648,7 @@ pub static C14: HistProp = HistProp {
 pub static C15_META: PropMeta = PropMeta {
     id: "C15",
     level: "fault_enumeration",
-    rule: "cases: histories with injected faults: a probe registration that fails at sub-source step k (rolled back by the source), a book-style composite with a child the poller rejects (regular file: siblings' registrations, incl. armed timer children, are performed and not rolled back), Generic/adapt_io over closed / duplicate / regular-file fds, failing reregister/unregister/process_events/before_sleep, scripted Err returns from any source kind, while other sources have events in the same batch; the history continues afterwards (retries, dispatches). oracle: failing insert returns Err and hands the source back, occupied slots / lifecycle set / kernel table unchanged, no callback for the rejected source, no panic in any later dispatch; failing enable/update/disable returns its error and calls nothing on other sources; an Err from event processing is returned by that dispatch, and every cause that was pending before it (incl. timers already expired into that batch) is served by the following Ok dispatches; behind any such fault every callback-legality, obligation, timer and removal rule of the monitor (C01/C02/C05/C06 rule sets) keeps being enforced for all sources (rule C15.intact: e.g. a stale sub-registration left by the rejected source must never reach the source that takes over its slot). non-trivial: a fault at step > 0 of a multi-sub-source registration, or an Err from process_events while another event was still owed in that dispatch; distinct by case fingerprint",
+    rule: "cases: (a) positions: fault-free base histories (probe-heavy, <= 30 ops) run once to count their fault sites (every register sub-step, reregister, unregister, process_events and before_sleep call of every probe source, in execution order) and then once per site with exactly that call failing, each run continuing to the end of the history: all positions of every base history. (b) histories with injected faults: a probe registration that fails at sub-source step k (rolled back by the source), a book-style composite with a child the poller rejects (regular file: siblings' registrations, incl. armed timer children, are performed and not rolled back), Generic/adapt_io over closed / duplicate / regular-file fds, failing reregister/unregister/process_events/before_sleep, scripted Err returns from any source kind, while other sources have events in the same batch; the history continues afterwards (retries, dispatches). oracle: failing insert returns Err and hands the source back, occupied slots / lifecycle set / kernel table unchanged, no callback for the rejected source, no panic in any later dispatch; failing enable/update/disable returns its error and calls nothing on other sources; an Err from event processing is returned by that dispatch, and every cause that was pending before it (incl. timers already expired into that batch) is served by the following Ok dispatches; behind any such fault every callback-legality, obligation, timer and removal rule of the monitor (C01/C02/C05/C06 rule sets) keeps being enforced for all sources (rule C15.intact: e.g. a stale sub-registration left by the rejected source must never reach the source that takes over its slot). non-trivial: a fault at step > 0 of a multi-sub-source registration, or an Err from process_events while another event was still owed in that dispatch; distinct by case fingerprint",
     assumptions: ASSUME,
 };
 
@@ -646,6 +665,70 @@ fn c15_profiles() -> Vec<(&'static str, Profile, u32, u32)> {
     p.o_cause = 14;
     p.max_ops = 35;
     vec![("hist", p, 40000, 600000)]
+}
+
+/// Fault enumeration proper: a fault-free base history is run once to count its fault sites (every register
+/// sub-step, reregister, unregister, process_events and before_sleep call of every probe source, in execution
+/// order), then once per site with exactly that call failing; each run continues to the end of the history and is
+/// judged by the same monitor.
+#[derive(serde::Serialize, serde::Deserialize, Debug, Clone, Hash)]
+pub struct PosCase {
+    pub base: HistCase,
+}
+
+fn run_positions(c: &PosCase) -> CaseOutcome {
+    let ((facts, viol, foreign), sites) = crate::hist::run_for_fault("C15", &c.base, true, None);
+    let mut info = base_info(&c.base, &facts, &foreign);
+    info.classes.push("fault_positions_base_history");
+    if let Some(v) = viol {
+        return (info, Some(v));
+    }
+    let sites = sites.min(160);
+    let mut ran = 0u64;
+    let mut failed_something = 0u64;
+    for k in 0..sites {
+        let ((f2, v2, _), _) = crate::hist::run_for_fault("C15", &c.base, true, Some(k));
+        ran += 1;
+        if f2.failed_registrations > 0 || f2.failed_dispatches > 0 || f2.sources_returned_err > 0 {
+            failed_something += 1;
+        }
+        if let Some(mut v) = v2 {
+            v.detail = format!("with fault site #{k} of {sites} failing: {}", v.detail);
+            info.counters.push(("fault_positions_run", ran));
+            return (info, Some(v));
+        }
+    }
+    info.counters.push(("fault_positions_run", ran));
+    info.counters.push(("fault_positions_that_failed_a_call", failed_something));
+    info.nontrivial = sites >= 3 && failed_something >= 1;
+    if sites >= 10 {
+        info.classes.push("fault_positions_10_or_more");
+    }
+    (info, None)
+}
+
+fn c15_positions(ctx: &CheckCtx, _hp: &'static HistProp) -> Option<Found> {
+    if let Some(f) = ctx.run_replays::<PosCase, _>("positions", run_positions) {
+        return Some(f);
+    }
+    let mut p = c15_profiles().remove(0).1;
+    p.o_fail = 0; // base histories are fault-free: the faults come from the enumeration
+    p.err_pct = 0;
+    p.k_probe = 14;
+    p.k_gen = 1;
+    p.k_chan = 1;
+    p.o_insert = 10;
+    p.o_token = 14;
+    p.o_cause = 12;
+    p.o_dispatch = 8;
+    p.o_async = 1;
+    p.o_badfd = 1;
+    p.post_pct = 25;
+    p.max_ops = 30;
+    let cases = ctx.tier.pick(6_000, 120_000);
+    let found = ctx.search_with("positions", || case_strategy(&p).prop_map(|base| PosCase { base }), cases, 8, None, run_positions);
+    ctx.col.exhaustive("sub-check positions: for every generated fault-free base history, every fault site it passes (probe register sub-steps, reregister, unregister, process_events, before_sleep; at most 160 per history) was failed in a run of its own");
+    found
 }
 
 pub static C15: HistProp = HistProp {
@@ -670,6 +753,7 @@ pub static C15: HistProp = HistProp {
     epoll_each_step: true,
     workers: 8,
     table: None,
+    extra: Some(c15_positions),
 };
 
 // ------------------------------------------------------------------------------------------ C16
@@ -721,6 +805,7 @@ pub static C16: HistProp = HistProp {
     epoll_each_step: true,
     workers: 8,
     table: None,
+    extra: None,
 };
 
 pub fn all() -> Vec<&'static HistProp> {
